@@ -127,7 +127,7 @@ func runHistory(env *px.Env, org *origin.Origin, site *origin.Site, c Case, idx 
 	install()
 	var st *stored
 	fresh := false
-	var storeT1 time.Time
+	var storeT1, storeT0 time.Time
 	oldVers := map[int]bool{} // versions replaced by a 200: must never be served again
 	n := 0
 	for _, op := range ops {
@@ -165,7 +165,9 @@ func runHistory(env *px.Env, org *origin.Origin, site *origin.Site, c Case, idx 
 					return
 				}
 			}
-			sureFresh := st != nil && fresh && time.Since(storeT1) < L-30*time.Millisecond
+			// the proxy starts the lifetime when the origin's header arrives, some time between the start (T0) and
+			// the end (T1) of the exchange that stored the entry: certainly still fresh only measured from T0
+			sureFresh := st != nil && fresh && time.Since(storeT0) < L-10*time.Millisecond
 			maybeFresh := st != nil && fresh
 			switch {
 			case sureFresh:
@@ -248,7 +250,7 @@ func runHistory(env *px.Env, org *origin.Origin, site *origin.Site, c Case, idx 
 					res.fail = ev.Failf("reval.304-label", "%s: 304 revalidation labelled %q", rid, xc)
 					return
 				}
-				fresh, storeT1 = true, resp.T1
+				fresh, storeT1, storeT0 = true, resp.T1, resp.T0
 			case 200:
 				nv := versions[first.Ver]
 				if st != nil && st.ver != first.Ver {
@@ -260,7 +262,7 @@ func runHistory(env *px.Env, org *origin.Origin, site *origin.Site, c Case, idx 
 					return
 				}
 				st = &stored{ver: first.Ver, v: nv}
-				fresh, storeT1 = true, resp.T1
+				fresh, storeT1, storeT0 = true, resp.T1, resp.T0
 			default:
 				res.nOther++
 				if !statuses[resp.Status] {
